@@ -389,6 +389,24 @@ func init() {
 		emitBool("fallback_dial_same_ctx", sameCtx, "client.go DialToSMTPClientWithContext: primary and fallback dial both get the context derived with the connTimeout deadline")
 		emitBool("fallback_dial_same_as_primary", sameCallee && sameCtx, "client.go DialToSMTPClientWithContext: fallback dial = primary dial up to network / address")
 
+		// Client.DialWithContext always dials: the call of DialToSMTPClientWithContext is reached without any return before it
+		alwaysDials := false
+		if fn, ok := p.funcs["Client.DialWithContext"]; ok && fn.Body != nil {
+			dc := callPositions(p, fn.Body, "c.DialToSMTPClientWithContext")
+			if len(dc) == 1 {
+				alwaysDials = true
+				ast.Inspect(fn.Body, func(x ast.Node) bool {
+					if rs, ok := x.(*ast.ReturnStmt); ok && rs.Pos() < dc[0] {
+						alwaysDials = false
+					}
+					return true
+				})
+			}
+		} else {
+			untranslatable = append(untranslatable, "dialwithcontext_site")
+		}
+		emitBool("dial_always_dials", alwaysDials, "client.go DialWithContext: no return before the call of DialToSMTPClientWithContext (a new connection is dialed on every call)")
+
 		// smtp.Client.cmd: every return path after Text.StartResponse(id) goes through Text.EndResponse(id) -- otherwise the
 		// textproto pipeline is never advanced and the next command waits in StartResponse for ever
 		endResp := false
